@@ -177,7 +177,7 @@ def expectation(doc, ep, vec):
                     else:
                         fields[k] = (None, "unspecified")     # untyped additional property holding a container: encoding not specified by the document
                 elif v is None:
-                    continue
+                    fields[k] = (None, "unspecified")      # null has no multipart representation the document could fix
                 else:
                     fields[k] = (epwork.wire_str(("j", v)).encode() if not isinstance(v, bool) else str(v).encode(), "text/plain")
             exp["multipart_fields"] = fields
